@@ -7,12 +7,23 @@
                                      len = 0) frame was processed by X; close = error code of the CONNECTION_CLOSE X
                                      emitted right afterwards, or -1.  Offsets of 2^62-1-len are carried as 2^30.
      xclose close                    X closed the connection on a CRYPTO / PATH_CHALLENGE / NEW_CONNECTION_ID packet
+     ncid   seq rpt                  a NEW_CONNECTION_ID frame of the peer (genuine ones of the handshake included) reached X
+     rcid   seq                      X put RETIRE_CONNECTION_ID seq on the wire (the peer has seen that ID retired)
      buf    reasm crypto chal retire pcids   measured peer-driven state after a hostile packet *)
 EXTENDS FlowRecv, TraceBase
 
 VARIABLE s
 S0(e) == [sl |-> e.sl, cl |-> e.cl, ms |-> e.ms, client |-> e.client, lim |-> <<>>, hi |-> <<>>, fin |-> <<>>,
-          total |-> 0, mb |-> e.ms, mu |-> e.ms, opened |-> {}, closed |-> FALSE]
+          total |-> 0, mb |-> e.ms, mu |-> e.ms, opened |-> {}, closed |-> FALSE,
+          ann |-> {0}, ret |-> {}, rpt |-> 0, cidOver |-> FALSE]
+(* Connection IDs the peer has announced and not seen retired: RFC 9000 5.1.1 lets the peer keep at most
+   active_connection_id_limit (8, what aioquic advertises) of them, except transiently when the same frame retires the
+   excess through Retire Prior To.  cidOver remembers that the peer went beyond that at some point. *)
+CidLimit == 8
+ActiveIds(st) == {q \in st.ann : q >= st.rpt} \ st.ret
+(* IDs the peer asked X to retire and has not seen retired yet: RFC 9000 5.1.2 lets X treat more than it is willing to track
+   (it should allow for at least twice the limit) as CONNECTION_ID_LIMIT_ERROR, so a peer that piles these up is not "within". *)
+ToRetire(st) == {q \in st.ann : q < st.rpt} \ st.ret
 At(f, k, d) == IF k \in DOMAIN f THEN f[k] ELSE d
 Put(f, k, v) == [x \in (DOMAIN f) \cup {k} |-> IF x = k THEN v ELSE f[x]]
 MaxOf(a, b) == IF a > b THEN a ELSE b
@@ -32,6 +43,10 @@ StepS(st, e) ==
                           [] e.kind = "uni"    -> [st EXCEPT !.mu = MaxOf(@, e.value)])
     [] e.ev = "opened" -> [st EXCEPT !.opened = @ \cup {e.sid}]
     [] e.ev = "xclose" -> [st EXCEPT !.closed = TRUE]
+    [] e.ev = "ncid" -> LET st1 == [st EXCEPT !.ann = @ \cup {e.seq}, !.rpt = MaxOf(@, e.rpt)] IN
+                        [st1 EXCEPT !.cidOver = @ \/ Cardinality(ActiveIds(st1)) > CidLimit
+                                                   \/ Cardinality(ToRetire(st1)) > 2 * CidLimit]
+    [] e.ev = "rcid" -> [st EXCEPT !.ret = @ \cup {e.seq}]
     [] e.ev = "frame" ->
          IF st.closed \/ (~e.live /\ e.close = -1) THEN st
          ELSE IF e.close # -1 THEN [st EXCEPT !.closed = TRUE]
@@ -45,6 +60,8 @@ Cl(st, e) ==
          IF st.closed \/ ~e.live \/ Unruled(At(st.hi, e.sid, 0), At(st.fin, e.sid, -1), e.off + e.len, e.fin \/ e.reset) THEN << >> ELSE
          << <<"frame-beyond-a-limit-closes-with-the-matching-error", BeyondOk(CodesOf(st, e), e.close)>>,
             <<"peer-within-advertised-limits-is-never-accused", WithinOk(CodesOf(st, e), e.close)>> >>
+    [] e.ev = "xclose" ->
+         << <<"peer-within-connection-id-limit-is-never-accused", (e.close = 9 /\ ~st.closed) => st.cidOver>> >>
     [] e.ev = "buf" ->
          << <<"reassembly-bytes-within-advertised-connection-credit", st.closed \/ e.reasm <= st.cl>>,
             <<"pending-handshake-data-bounded", e.crypto <= 524288>>,
